@@ -29,6 +29,10 @@ pub struct Sc {
     /// names): every one of them is passed to the children and counts against the budget
     #[serde(default)]
     pub env_name_style: u8,
+    /// the command is spelled `./fusim-true` (a link to /bin/true) and xargs runs in a working
+    /// directory whose absolute path is this many bytes long
+    #[serde(default)]
+    pub rel_cmd_cwd: Option<usize>,
     pub initial: Vec<String>,
     /// replace mode (-I {}): `initial` holds templates, every input line is one invocation
     /// whose arguments are the templates with {} replaced by the line
@@ -115,8 +119,10 @@ impl Sc {
         if self.nul {
             opts.insert(0, Opt::Null);
         }
-        let mut cmd = vec!["/bin/true".to_string()];
+        let mut cmd = vec![if self.rel_cmd_cwd.is_some() { "./fusim-true".to_string() } else { "/bin/true".to_string() }];
         cmd.extend(self.initial.iter().cloned());
+        let mut extra = crate::xargs::XExtra::default();
+        extra.long_cwd = self.rel_cmd_cwd;
         XargsScenario {
             opts,
             cmd,
@@ -129,7 +135,7 @@ impl Sc {
             note: "c06".into(),
             decoy_in_cwd: false,
             echo_mode: false,
-            extra: Default::default(),
+            extra,
         }
     }
 }
@@ -274,6 +280,7 @@ impl Property for C06 {
                 env_vars: rng.urange(0, 30),
                 env_val_len: rng.urange(0, 50),
                 env_name_style: 0,
+                rel_cmd_cwd: None,
                 initial: vec![],
                 replace: false,
                 words_per_line: 1,
@@ -331,6 +338,7 @@ impl Property for C06 {
                 env_vars,
                 env_val_len,
                 env_name_style: u8::from(rng.chance(1, 4)),
+                rel_cmd_cwd: None,
                 initial,
                 replace: true,
                 words_per_line: 1,
@@ -381,6 +389,7 @@ impl Property for C06 {
             env_vars,
             env_val_len,
             env_name_style: u8::from(rng.chance(1, 4)),
+            rel_cmd_cwd: if rng.chance(1, 12) { Some(*rng.pick(&[2200usize, 3000, 3900])) } else { None },
             initial,
             replace: false,
             words_per_line,
